@@ -109,11 +109,13 @@ type SimCfg struct {
 	SkewPPM       int64   `json:"skew_ppm,omitempty"`
 	AggrUS        int64   `json:"aggr_us,omitempty"`
 	SchedSeed     uint64  `json:"sched_seed,omitempty"`
+	BatchInstant  bool    `json:"batch_instant,omitempty"`
+	BatchWindowUS int64   `json:"batch_window_us,omitempty"`
 }
 
 func (s SimCfg) Config() simrt.Config {
 	c := simrt.Config{ShuffleTies: s.ShuffleTies, ShuffleMaps: s.ShuffleMaps, RandomHandoff: s.RandomHandoff,
-		GateProb: s.GateProb, Sticky: s.Sticky, TimerSkewPPM: s.SkewPPM}
+		GateProb: s.GateProb, Sticky: s.Sticky, TimerSkewPPM: s.SkewPPM, BatchInstant: s.BatchInstant, BatchWindow: us(s.BatchWindowUS)}
 	if s.AggrUS > 0 {
 		c.Knobs = map[string]int64{"bgp.aggr": s.AggrUS * 1000}
 	}
